@@ -124,7 +124,10 @@ def threading_rules(rep, r2, m):
     imp = ini.params[0]["name"]
     r2.instance("initialize: incr_sz = %s; incr_num = %s" % (ist.get(imp + "->incr_sz"), ist.get(imp + "->incr_num")))
     rep.sample({"rule": "R-C20-2", "incr_sz": ist.get(imp + "->incr_sz"), "incr_num": ist.get(imp + "->incr_num")})
-    if ist.get(imp + "->incr_num") != "(%s->incr_sz / %s->obj_sz)" % (imp, imp):
+    szv = ist.get(imp + "->incr_sz", "?")
+    osv = ist.get(imp + "->obj_sz", "?")
+    fit_forms = {"(%s / %s)" % (a_, b_) for a_ in ("%s->incr_sz" % imp, szv) for b_ in ("%s->obj_sz" % imp, osv)}
+    if ist.get(imp + "->incr_num") not in fit_forms:
         rep.finding(r2, ini.name, "fit", "incr_num = %s is not incr_sz / obj_sz: the objects threaded may not fit the chunk"
                     % ist.get(imp + "->incr_num"), where=m.rel(ini.where))
         r2.fail()
@@ -132,8 +135,11 @@ def threading_rules(rep, r2, m):
         r2.ok()
     osz, onum = ini.params[1]["name"], ini.params[2]["name"]
     page = r"(cmi_pagesize\(\)|sysconf\(\w+\))"
-    pat = r"\(\(\(\(\(%s \* %s\) \+ %s\) - 1\) / %s\) \* %s\)" % (onum, osz, page, page, page)
-    if not re.fullmatch(pat, ist.get(imp + "->incr_sz", "")) or ist.get(imp + "->obj_sz") != osz:
+    tot = r"\((?:%s \* %s|%s \* %s)\)" % (onum, osz, osz, onum)
+    padded = r"\(\(%s \+ %s\) - 1\)" % (tot, page)
+    # obj_num * obj_sz rounded up to whole pages: ((t + p - 1) / p) * p   or   x - x % p with x = t + p - 1
+    pats = [r"\(\(%s / %s\) \* %s\)" % (padded, page, page), r"\(%s - \(%s %% %s\)\)" % (padded, padded, page)]
+    if not any(re.fullmatch(pt_, ist.get(imp + "->incr_sz", "")) for pt_ in pats) or ist.get(imp + "->obj_sz") != osz:
         rep.finding(r2, ini.name, "chunk:rounding", "incr_sz = %s is not obj_num * obj_sz rounded up to whole pages"
                     % ist.get(imp + "->incr_sz"), where=m.rel(ini.where))
         r2.fail()
@@ -213,11 +219,12 @@ def rules(rep, m):
             r4.fail()
         else:
             r4.ok()
-    def lin_exec(f, head_field):
+    def lin_exec(f, head_field, empty=None):
         """Sequential symbolic execution of a small push/pop routine: values are terms over the parameters, HEAD0 (the
         head on entry), HEAD1 (the head after a refill) and mem[x] (first word of x).  Returns (head, mem, ret, refilled)."""
         mpn = f.params[0]["name"]
-        st = {"head": "HEAD0", "mem": {}, "env": {}, "ret": None, "refill": None}
+        # empty: None = no case split (free); True / False = the path on which the free list is / is not empty on entry
+        st = {"head": "NULL" if empty else "HEAD0", "mem": {}, "env": {}, "ret": None, "refill": None}
 
         def ev(n):
             if is_null_expr(n):
@@ -263,9 +270,16 @@ def rules(rep, m):
                 c_ = ev_cond(kids(s_)[0])
                 calls = [callee_ref(y) for y in walk(kids(s_)[1]) if y["kind"] == "CallExpr"]
                 if c_ == "head-empty" and "cmi_mempool_expand" in calls and len(kids(s_)) == 2:
-                    st["refill"] = st["head"]
-                    st["head"] = "HEAD1"
-                    st["mem"] = {}
+                    st["refill"] = True
+                    if empty is False:
+                        pass                          # the list is not empty: the branch is not taken
+                    else:
+                        st["head"] = "FRESH"           # expand leaves a fresh, non-empty list
+                        st["mem"] = {}
+                        for b_ in (kids(kids(s_)[1]) if kids(s_)[1]["kind"] == "CompoundStmt" else [kids(s_)[1]]):
+                            if b_["kind"] == "CallExpr" or (strip(b_, casts=True)["kind"] == "CallExpr"):
+                                continue
+                            do(b_)
                 else:
                     raise AnalysisBroken("%s: conditional %s not understood" % (f.name, render(kids(s_)[0])))
             elif k == "ReturnStmt":
@@ -279,7 +293,7 @@ def rules(rep, m):
             c_ = strip(c_, casts=True)
             if c_["kind"] == "BinaryOperator" and c_.get("opcode") == "==":
                 a_, b_ = ev(kids(c_)[0]), ev(kids(c_)[1])
-                if {a_, b_} == {st["head"], "NULL"}:
+                if {a_, b_} == {st["head"], "NULL"} or (a_ == b_ == "NULL"):
                     return "head-empty"
             if c_["kind"] == "UnaryOperator" and c_.get("opcode") == "!" and ev(kids(c_)[0]) == st["head"]:
                 return "head-empty"
@@ -288,15 +302,18 @@ def rules(rep, m):
         return st
 
     from ..vals import is_assert_stmt
-    sa_ = lin_exec(al, "next_obj")
-    r4.instance("alloc: refill when empty: %s; returns %s; head becomes %s" % (sa_["refill"] is not None, sa_["ret"], sa_["head"]))
-    rep.sample({"rule": "R-C20-4", "alloc": {"ret": sa_["ret"], "head": sa_["head"], "refill": sa_["refill"]}})
-    if sa_["refill"] != "HEAD0" or sa_["ret"] != "HEAD1" or sa_["head"] != "mem[HEAD1]":
-        rep.finding(r4, al.name, "pop", "alloc does not (refill when empty and then) hand out the head and advance to the head's "
-                    "first word: it returns %s and leaves the head at %s" % (sa_["ret"], sa_["head"]), where=m.rel(al.where))
-        r4.fail()
-    else:
-        r4.ok()
+    okpop = True
+    for emp, top in ((False, "HEAD0"), (True, "FRESH")):
+        sa_ = lin_exec(al, "next_obj", empty=emp)
+        r4.instance("alloc (free list %s on entry): refill test present: %s; returns %s; head becomes %s" %
+                    ("empty" if emp else "not empty", sa_["refill"] is not None, sa_["ret"], sa_["head"]))
+        rep.sample({"rule": "R-C20-4", "alloc": {"empty_on_entry": emp, "ret": sa_["ret"], "head": sa_["head"]}})
+        if sa_["refill"] is None or sa_["ret"] != top or sa_["head"] != "mem[%s]" % top:
+            okpop = False
+            rep.finding(r4, al.name, "pop", "alloc does not (refill when empty and then) hand out the head and advance to the head's "
+                        "first word: with the free list %s on entry it returns %s and leaves the head at %s" %
+                        ("empty" if emp else "not empty", sa_["ret"], sa_["head"]), where=m.rel(al.where))
+    (r4.ok if okpop else r4.fail)()
     sf_ = lin_exec(fr, "next_obj")
     fop = fr.params[1]["name"]
     r4.instance("free: first word of the object becomes %s; head becomes %s" % (sf_["mem"].get(fop), sf_["head"]))
